@@ -1,4 +1,4 @@
-// Driver of the TCP legs (C12, C13, C14, C19): the client is initialised the documented way
+// Driver of the TCP legs (C12, C13, C14, C15, C19): the client is initialised the documented way
 // (client.InitPath, file registry with one address) and dials harness/tctcp, a coordinator stand-in on
 // 127.0.0.1:0 that speaks the Seata v1 protocol with its own frame and body codec.  What every other
 // driver bypasses is exercised here: getty.NewTCPClient, the real getty session and its receive loop,
@@ -15,6 +15,9 @@
 //	           compared with what the caller / the resource manager received)
 //	rpc        C14: Rpc_Gen's reply schedules with concurrent SendSyncRequest callers; replies reordered,
 //	           duplicated, dropped, late; connection loss by RST while requests are pending
+//	inbound    C15: Inbound_Gen's request streams as bursts on the one connection: the scenario's branch commit /
+//	           rollback requests plus 16..32 background requests written back to back, all stub managers
+//	           released together, the replies read from the socket by the stand-in's own decoder
 //	reconnect  C19: Sessions_GenRc's loss/reopen/settle scenarios with a real AT resource (proxy over memsql)
 //	           and a TCC resource; the connection is dropped with RST, getty reconnects by itself
 //
@@ -99,6 +102,9 @@ func main() {
 		items = planRpc(o, raws)
 		workers = 4
 		idle = 90 * time.Second
+	case "inbound":
+		items = planInbound(o, raws)
+		workers = 6
 	case "reconnect":
 		items = planReconnect(o, raws)
 		workers = 8
@@ -459,6 +465,8 @@ func runChild(o *common.Opts) {
 		lab.runWire(its)
 	case "rpc":
 		lab.runRpc(its)
+	case "inbound":
+		lab.runInbound(its)
 	case "reconnect":
 		lab.runReconnects(its)
 	}
